@@ -384,7 +384,7 @@ func (f *Frame) pointEnv(st *State, b *ssa.BasicBlock, idx int, extra map[string
 	} else if u.fn.Pkg != nil {
 		pkg = u.fn.Pkg.Pkg
 	}
-	e := &Env{u: u, st: st, old: u.entry, bound: map[string]boundVar{}, pkg: pkg, qctr: &u.qctr}
+	e := &Env{u: u, st: st, old: u.entry, bound: map[string]boundVar{}, pkg: pkg, qctr: &u.qctr, fn: f.fn}
 	e.lookup = func(e *Env, name string) (TV, bool) {
 		if extra != nil {
 			if tv, ok := extra[name]; ok {
